@@ -233,3 +233,28 @@ register(
     ],
     probes=["set_nested", "set_top", "set_index_ge_10", "transplant_done", "behaviour_compared", "aliasing_between_instances", "fit_between_protocol_calls"],
 )
+
+register(
+    "C13",
+    quick=1200,
+    thorough=30000,
+    level="exploration",
+    rule=(
+        "permutation clause (3/4 of the runs): one run = a label set of size k (2..9) of type int / arbitrary int / "
+        "str / float(+NaN), data, an exactly permutation-equivariant learner (1-NN, GaussianNB, seeded tree); the "
+        "entropy seam forces numpy.random.permutation to return EVERY permutation of k labels in turn for k <= 4 "
+        "(quick) / 5 (thorough) -- exhaustive over permutations, identity included but never the only one -- and "
+        "draws adversarially for larger k; per permutation: transformer round trip (X same object, targets back, NaN "
+        "kept), TransformedTargetClassifier2 predictions / probabilities / classes_ against the plain classifier. "
+        "function-name clause (1/4): each of the six names on targets of its domain, round trip and a recording "
+        "regressor inside TransformedTargetRegressor2 (no schedule/fault/entropy dimension, counted apart). "
+        "non-trivial = permutation runs in which the seam was consulted, all function runs; distinct = distinct "
+        "(clause, k, label type, learner / function name, NaN)"
+    ),
+    assumptions=[
+        "which permutation is drawn reaches the library only through numpy.random.permutation (random_state=None) -- owned by the seam; an integer random_state is an input and is sampled",
+        "closest=True (TransformedTargetRegressor2 with 'permute') is not exercised: PermutationReciprocalTransformer._find_closest cannot run under numpy 2",
+        "equivariant learners: KNeighborsClassifier(1) exact, GaussianNB atol 1e-8, DecisionTreeClassifier(random_state=0) atol 1e-9 on class-shifted continuous data",
+    ],
+    probes=["non_identity_permutation", "exhaustive_permutations_k2", "exhaustive_permutations_k3", "exhaustive_permutations_k4", "labels_str", "function_name_clause"],
+)
